@@ -136,6 +136,7 @@ func (e *Engine) Discharge(cfg SolverCfg) {
 				ob.Solver = "simplifier"
 				continue
 			}
+			instHints = ob.Hints
 			q = c.Query(e.prepareGoal(ob.Hyp, ob.Goal), ob.ModelTerms)
 		}
 		q = "; " + ob.Name + "\n; " + strings.Replace(ob.Clause, "\n", " ", -1) + "\n" + q
@@ -152,6 +153,9 @@ func (e *Engine) Discharge(cfg SolverCfg) {
 		j := job{ob: ob, file: f}
 		if !ob.Cover && strings.Contains(q, "(forall ") {
 			q2 := "; " + ob.Name + " (quantified hypotheses replaced by instances)\n" + c.QueryOpt(e.prepareGoalMode(ob.Hyp, ob.Goal, true), ob.ModelTerms, true)
+			if os.Getenv("GOVC_DEBUGQF") != "" && (strings.Contains(q2, "(forall ") || strings.Contains(q2, "(exists ")) {
+				os.WriteFile(filepath.Join(dir, fmt.Sprintf("q%04d.notqf.smt2", i)), []byte(q2), 0o644)
+			}
 			if !strings.Contains(q2, "(forall ") && !strings.Contains(q2, "(exists ") {
 				j.qfile = filepath.Join(dir, fmt.Sprintf("q%04d.qf.smt2", i))
 				os.WriteFile(j.qfile, []byte(q2), 0o644)
